@@ -71,15 +71,18 @@ def gen_spec(rng, solver, df, pen, seed, coords, variant):
         storage = "dense"
         if not K.compatible(solver, df, pen, storage, icpt, strategy):
             return None
-    p = int(rng.integers(3, 12))
+    p = int(rng.integers(3, 16))
     n = int(rng.integers(5, 20))
     knobs = dict(tol=1e-8)
     b_it, b_ep = (info["budget"] + (None,))[:2]
     knobs[b_it] = {"FISTA": 60, "LBFGS": 30, "GramCD": 40, "PDCD_WS": 8}.get(solver, 6)
     if b_ep:
         knobs[b_ep] = 25
+    small_ws = bool(variant % 2 == 1) if solver != "GroupBCD" else bool(variant in (0, 3, 6, 7))
     if solver in ("AndersonCD", "ProxNewton", "GroupBCD", "GroupProxNewton", "MultiTaskBCD", "PDCD_WS"):
-        knobs["p0"] = int(rng.choice([1, p + 3]))     # working sets that contain the last feature / group
+        # either a working set that is a strict, growing subset (p0=1 from a cold start: arrays restricted to the
+        # working set are then indexed by positions, not ids) or one that contains everything incl. the last unit
+        knobs["p0"] = 1 if small_ws else p + 3
     if solver == "GramCD":
         knobs["greedy_cd"] = bool(rng.integers(0, 2))
         knobs["use_acc"] = not knobs["greedy_cd"]
@@ -89,7 +92,7 @@ def gen_spec(rng, solver, df, pen, seed, coords, variant):
                 positive=bool(rng.integers(0, 2)) if pen in K.POSFLAG + ["WeightedGroupL2"] else False,
                 zero_weights=bool(rng.integers(0, 2)), knobs=knobs,
                 group_style=str(rng.choice(["contig", "perm", "trap"])), n_tasks=int(rng.integers(1, 4)),
-                warm=str(rng.choice(["cold", "dense", "sparse"])))
+                warm=str(rng.choice(["cold", "zero"])) if small_ws else str(rng.choice(["cold", "dense", "sparse"])))
 
 
 def _guard(a, fill):
